@@ -16,4 +16,18 @@ for rel, mod in sorted(tree.modules.items()):
     if r:
         ref[rel] = r
 json.dump(ref, open(canon.REF_PATH, 'w'), indent=0, sort_keys=True)
+# every function of the reference tree, by module: a function that is not listed is a new helper (sa/inline.py)
+from sa import inline  # noqa: E402
+funcs = {rel: sorted(q for (q, f, body, cls) in inline._functions_with_qual(mod.tree)) for rel, mod in sorted(tree.modules.items())}
+json.dump(funcs, open(os.path.join(VERIF, 'sa', 'reference_functions.json'), 'w'), indent=0, sort_keys=True)
+# the statements of every function in canonical form: the shape the rules were confirmed on (sa/report.py measures how far a
+# function of the analysed tree has moved away from it before it lets an "expected construct not found" count as a violation)
+del os.environ['VERIF_NO_CANON']
+from sa.core import function_statements  # noqa: E402
+ctree = Tree()
+shapes = {}
+for rel, mod in sorted(ctree.modules.items()):
+    shapes[rel] = {q: function_statements(f) for (r_, q, f) in ctree.all_functions([rel])}
+json.dump(shapes, open(os.path.join(VERIF, 'sa', 'reference_shapes.json'), 'w'), indent=0, sort_keys=True)
+print('shapes written:', sum(len(v) for v in shapes.values()), 'functions,', os.path.getsize(os.path.join(VERIF, 'sa', 'reference_shapes.json')), 'bytes')
 print('reference written:', sum(len(v) for v in ref.values()), 'functions in', len(ref), 'modules,', os.path.getsize(canon.REF_PATH), 'bytes')
